@@ -1,6 +1,7 @@
 package main
 
 import (
+	"context"
 	"encoding/json"
 	"fmt"
 	"sort"
@@ -15,39 +16,43 @@ import (
 func init() { register("C13", genC13) }
 
 type c13Op struct {
-	Ext  int    `json:"ext"`  // index into the extension list
-	Op   string `json:"op"`   // register | next | initerr | exiterr | id-missing | id-invalid | id-unknown | id-other | noerrtype
+	Ext  int    `json:"ext"`           // index into the extension list
+	Op   string `json:"op"`            // register | next | initerr | exiterr | id-missing | id-invalid | id-unknown | id-other | noerrtype
 	Arg  string `json:"arg,omitempty"` // register: event-list variant; name variant
 	Name string `json:"name,omitempty"`
 	Feat string `json:"feat,omitempty"`
 }
 
 type c13Desc struct {
-	Kinds []string `json:"kinds"` // per extension: "ext" | "int"
-	Ops   []c13Op  `json:"ops"`
-	Special string `json:"special,omitempty"` // overflow-external | overflow-internal
+	Kinds   []string `json:"kinds"` // per extension: "ext" | "int"
+	Ops     []c13Op  `json:"ops"`
+	Special string   `json:"special,omitempty"` // overflow-external | overflow-internal
 }
 
 var c13EventVariants = map[string]string{
-	"IS":       `{"events":["INVOKE","SHUTDOWN"]}`,
-	"I":        `{"events":["INVOKE"]}`,
-	"S":        `{"events":["SHUTDOWN"]}`,
-	"none":     `{"events":[]}`,
-	"null":     `{"events":null}`,
-	"missing":  `{}`,
-	"dup":      `{"events":["INVOKE","INVOKE"]}`,
-	"unknown":  `{"events":["BOGUS"]}`,
-	"mixed":    `{"events":["INVOKE","BOGUS"]}`,
-	"lower":    `{"events":["invoke"]}`,
-	"badtype":  `{"events":"INVOKE"}`,
-	"badjson":  `{"events":["INVOKE"`,
-	"cfgkeys":  `{"events":["INVOKE"],"configurationKeys":["a"]}`,
+	"IS":        `{"events":["INVOKE","SHUTDOWN"]}`,
+	"I":         `{"events":["INVOKE"]}`,
+	"S":         `{"events":["SHUTDOWN"]}`,
+	"none":      `{"events":[]}`,
+	"null":      `{"events":null}`,
+	"missing":   `{}`,
+	"dup":       `{"events":["INVOKE","INVOKE"]}`,
+	"unknown":   `{"events":["BOGUS"]}`,
+	"mixed":     `{"events":["INVOKE","BOGUS"]}`,
+	"mixed2":    `{"events":["BOGUS","INVOKE"]}`,
+	"mixed3":    `{"events":["INVOKE","BOGUS","SHUTDOWN"]}`,
+	"mixed4":    `{"events":["invoke","SHUTDOWN"]}`,
+	"SI":        `{"events":["SHUTDOWN","INVOKE"]}`,
+	"lower":     `{"events":["invoke"]}`,
+	"badtype":   `{"events":"INVOKE"}`,
+	"badjson":   `{"events":["INVOKE"`,
+	"cfgkeys":   `{"events":["INVOKE"],"configurationKeys":["a"]}`,
 	"emptybody": ``,
 }
 
 func c13EventsOf(variant string) (events []string, valid bool, reason string) {
 	switch variant {
-	case "IS":
+	case "IS", "SI":
 		return []string{"INVOKE", "SHUTDOWN"}, true, ""
 	case "I", "dup":
 		return []string{"INVOKE"}, true, ""
@@ -55,7 +60,7 @@ func c13EventsOf(variant string) (events []string, valid bool, reason string) {
 		return []string{"SHUTDOWN"}, true, ""
 	case "none", "null", "missing":
 		return nil, true, ""
-	case "unknown", "mixed", "lower":
+	case "unknown", "mixed", "mixed2", "mixed3", "mixed4", "lower":
 		return nil, false, "Extension.InvalidEventType"
 	default:
 		return nil, false, "InvalidRequestFormat"
@@ -90,6 +95,13 @@ func genC13(tier string, seed int64) []Case {
 			for _, b := range lifecycle {
 				add(c13Desc{Kinds: []string{kind}, Ops: []c13Op{{Ext: 0, Op: "register", Arg: "I"}, {Ext: 0, Op: a, Arg: "I"}, {Ext: 0, Op: b, Arg: "I"}}})
 				add(c13Desc{Kinds: []string{kind}, Ops: []c13Op{{Ext: 0, Op: a, Arg: "I"}, {Ext: 0, Op: "register", Arg: "I", Feat: "accountId"}, {Ext: 0, Op: b, Arg: "I"}}})
+			}
+		}
+		// a refused registration (invalid entry anywhere in the list) followed by a corrected retry and the rest of the life cycle
+		for _, bad := range []string{"mixed", "mixed2", "mixed3", "mixed4", "SI", "unknown"} {
+			for _, good := range []string{"I", "none", "IS"} {
+				add(c13Desc{Kinds: []string{kind}, Ops: []c13Op{{Ext: 0, Op: "register", Arg: bad}, {Ext: 0, Op: "register", Arg: good}, {Ext: 0, Op: "next"}}})
+				add(c13Desc{Kinds: []string{"ext", kind}, Ops: []c13Op{{Ext: 0, Op: "register", Arg: "I"}, {Ext: 1, Op: "register", Arg: bad}, {Ext: 1, Op: "register", Arg: good}, {Ext: 0, Op: "next"}, {Ext: 1, Op: "next"}}})
 			}
 		}
 		for _, feat := range []string{"accountId", "bogus", " accountId , other", "other,accountId", "ACCOUNTID"} {
@@ -140,14 +152,14 @@ func genC13(tier string, seed int64) []Case {
 }
 
 type c13Ext struct {
-	kind    string
-	name    string
-	state   string // Absent | Started | Registered | Ready | InitError | ExitError
-	events  []string
-	id      string
-	pt      *vh.Party
-	pt2     *vh.Party
-	parked  *vh.Async
+	kind   string
+	name   string
+	state  string // Absent | Started | Registered | Ready | InitError | ExitError
+	events []string
+	id     string
+	pt     *vh.Party
+	pt2    *vh.Party
+	parked *vh.Async
 }
 
 func runC13(c *Ctx, d c13Desc) {
@@ -526,6 +538,42 @@ func runC13(c *Ctx, d c13Desc) {
 				c.Check(stateOf() == "ExitError", "exit_error_final", fmt.Sprintf("C13/exit-error-not-final/%s/state2-%s", e.kind, stateOf()), "ExitError state was left by refused calls", name)
 			}
 		}
+	}
+	// ---- identifiers do not survive a reset: every call with a pre-reset identifier is "unknown" ----
+	{
+		rdone := make(chan struct{})
+		go func() { w.E.Srv.Reset("explicit", 1500); close(rdone) }()
+		select {
+		case <-rdone:
+		case <-time.After(10 * time.Second):
+			c.Inconclusive("reset did not return")
+			return
+		}
+		stale := vh.NewParty("ext:stale-after-reset", w.E.Addr, w.E.Log, context.Background())
+		defer stale.Close()
+		for _, e := range exts {
+			if e.id == "" {
+				continue
+			}
+			for _, call := range []struct {
+				op string
+				f  func() *vh.Resp
+			}{
+				{"initerr", func() *vh.Resp { return stale.ExtInitError(e.id, "Extension.Stale") }},
+				{"exiterr", func() *vh.Resp { return stale.ExtExitError(e.id, "Extension.Stale") }},
+			} {
+				r := call.f()
+				c.Check(r.Status == 403 && r.Etype == "Extension.UnknownExtensionIdentifier", "identifier_dies_with_reset", fmt.Sprintf("C13/stale-identifier/%s/%s/%d-%s", e.kind, call.op, r.Status, r.Etype), fmt.Sprintf("%s with the identifier a %s extension got before the reset answered %d %s", call.op, e.kind, r.Status, r.Etype), e.name)
+			}
+			// next with a stale identifier: refused; it must not park as if the extension existed
+			a := vh.Go(func() *vh.Resp { return stale.ExtNextID(e.id) })
+			r := a.Wait(500 * time.Millisecond)
+			if c.Check(r != nil, "identifier_dies_with_reset", "C13/stale-identifier/"+e.kind+"/next-parks", "next with a pre-reset identifier was not answered (parked as if the extension were registered)", e.name) {
+				c.Check(r.Status == 403 && r.Etype == "Extension.UnknownExtensionIdentifier", "identifier_dies_with_reset", fmt.Sprintf("C13/stale-identifier/%s/next/%d-%s", e.kind, r.Status, r.Etype), "next with a pre-reset identifier was not refused as unknown", e.name)
+			}
+		}
+		st := w.E.State()
+		c.Check(len(st.Extensions) == 0 && st.FirstFatalError == "", "stale_calls_leave_no_trace", "C13/stale-identifier/state", "calls with pre-reset identifiers left extensions or a fatal error in the platform state", fmt.Sprintf("ext=%d ffe=%q", len(st.Extensions), st.FirstFatalError))
 	}
 	c.SetTrace(strings.Join(trace, " "), true)
 	if c.WantSample || c.Violated() {
